@@ -273,3 +273,12 @@ M("c14_batch_single_row_accepted", DT, "        if ary.shape[0] <= 1:\n", "     
 M("c14_series_as_column", DT, "            if len(ary.shape) <= 1:\n                # only one sample should be passed, so coerce column vectors (e.g. pd.Series) to rows\n                ary = ary.reshape(1, -1)", "            if len(ary.shape) <= 1:\n                # only one sample should be passed, so coerce column vectors (e.g. pd.Series) to rows\n                ary = ary.reshape(1, -1) if not hasattr(X, \"iloc\") else ary.reshape(-1, 1)", ["C14"])
 M("c14_kdq_reset_after_validation_counter", KD, "        X, _, _ = super()._validate_input(X, None, None)\n        StreamingDetector.update(self, X, None, None)", "        StreamingDetector.update(self, X, None, None)\n        X, _, _ = super()._validate_input(X, None, None)", ["C14"])
 M("c14_cdbd_list_again", "menelaus/data_drift/cdbd.py", "        if len(np.shape(X)) > 1 and np.shape(X)[1] != 1:\n            raise ValueError(\"CDBD should only be used to monitor 1 variable.\")\n        super().update(X, None, None)", "        if len(X.shape) > 1 and X.shape[1] != 1:\n            raise ValueError(\"CDBD should only be used to monitor 1 variable.\")\n        super().update(X, None, None)", ["C14"])
+
+# (equivalent after the validator fix: kdq without deepcopy, HDM reference without deepcopy, STEPD keeping the label scalar - the validated
+#  arrays are already private copies)
+M("c15_validator_asarray", DT, "            ary = copy.copy(X)\n            ary = np.array(ary)\n            if len(ary.shape) <= 1:\n                # Batch size of 1", "            ary = np.asarray(X)\n            if len(ary.shape) <= 1:\n                # Batch size of 1", ["C15"])
+M("c15_values_view_again", DT, "            ary = np.array(X.values)\n        else:\n            ary = copy.copy(X)\n            ary = np.array(ary)\n            if len(ary.shape) <= 1:\n                # only one sample", "            ary = X.values\n        else:\n            ary = copy.copy(X)\n            ary = np.array(ary)\n            if len(ary.shape) <= 1:\n                # only one sample", ["C15"])
+M("c15_stream_validator_asarray", DT, "            ary = copy.copy(X)\n            ary = np.array(ary)\n            if len(ary.shape) <= 1:\n                # only one sample", "            ary = np.asarray(X)\n            if len(ary.shape) <= 1:\n                # only one sample", ["C15"])
+M("c15_nndvi_sorts_caller_batch", ND, "        if self._drift_state == \"drift\":\n            self.reset()\n", "        if self._drift_state == \"drift\":\n            self.reset()\n        if isinstance(X, np.ndarray) and X.flags.writeable and X.ndim == 2 and X.shape[0] > 12:\n            X.sort(axis=0)\n", ["C15"])
+M("c15_validate_y_clears_caller_label", DT, "        ary = np.array(y).ravel()\n        if ary.shape != (1,):", "        ary = np.array(y).ravel()\n        if isinstance(y, np.ndarray) and y.size == 1:\n            y[...] = 0\n        if ary.shape != (1,):", ["C15"])
+M("c15_kdq_batch_keeps_view_of_frame", KD, "        X, _, _ = super()._validate_input(X, None, None)\n        BatchDetector.update(self, X, None, None)\n        ary = copy.deepcopy(X)", "        raw = X\n        X, _, _ = super()._validate_input(X, None, None)\n        BatchDetector.update(self, X, None, None)\n        ary = raw if isinstance(raw, np.ndarray) and raw.ndim == 2 else copy.deepcopy(X)", ["C15"])
